@@ -31,11 +31,13 @@ pub const SOURCES: [(&str, &str, &str, &str); 20] = [
 
 pub const PRELUDE: &str = "proc pa2 {a b} {}; set nonint abc; proc rce {} {return -code error rmsg}; proc rcei {} {return -code error -errorcode ECODE -errorinfo {given info} imsg}; proc rcec {} {return -code error -errorcode ONLYCODE cmsg}; proc rceo {} {return -errorcode OCODE -code error omsg}";
 
-const FRAMES: [&str; 4] = ["proc", "if", "foreach", "while"];
+const FRAMES: [&str; 5] = ["proc", "if", "foreach", "while", "rproc"];
 
 fn wrap(kind: &str, k: usize, body: &str) -> String {
     match kind {
         "proc" => format!("proc q{k} {{}} {{{b}}}; q{k}", k = k, b = body),
+        // a one-shot procedure: it removes itself while it runs; the error still passed through it
+        "rproc" => format!("proc q{k} {{}} {{rename q{k} {{}}; {b}}}; q{k}", k = k, b = body),
         "if" => format!("if 1 {{{b}}}", b = body),
         "foreach" => format!("foreach i{k} 1 {{{b}}}", k = k, b = body),
         _ => format!("set w{k} 0; while {{$w{k} < 1}} {{incr w{k}; {b}}}", k = k, b = body),
@@ -83,7 +85,7 @@ pub fn gen(tier: &str, seed: u64) -> Gen {
             }
         }
     }
-    (cases, vec![(format!("20 error sources x every stack of proc/if/foreach/while frames of depth<={} x 6 observation variants (host, catch, rethrow x3, quiet)", maxdepth), n, thorough)])
+    (cases, vec![(format!("20 error sources x every stack of proc/if/foreach/while/self-removing-proc frames of depth<={} x 6 observation variants (host, catch, rethrow x3, quiet)", maxdepth), n, thorough)])
 }
 
 fn host_obs(interp: &mut molt::Interp, script: &str) -> Term {
